@@ -444,6 +444,33 @@ def validate_traces(module, traces, tr, what, timeout=600):
     return rej
 
 
+def apalache_inductive(module, vd):
+    """IndInit /\\ Next => IndInv' (length 1) and Init => IndInv (length 0) with Apalache; 'unavailable' if the tool cannot run"""
+    import shutil
+    import subprocess
+    import tempfile
+    if shutil.which("apalache-mc") is None:
+        return "unavailable"
+    sc = common.spec_copy()
+    out = tempfile.mkdtemp(prefix="apa_", dir=common.scratch())
+    verdicts = []
+    for init, length in (("IndInit", 1), ("Init", 0)):
+        try:
+            r = subprocess.run(["apalache-mc", "check", "--init=" + init, "--inv=IndInv", "--length=%d" % length, "--out-dir=" + out, module],
+                               cwd=sc, stdout=subprocess.PIPE, stderr=subprocess.STDOUT, text=True, timeout=300)
+        except subprocess.TimeoutExpired:
+            return "timeout"
+        if "EXITCODE: OK" in r.stdout:
+            verdicts.append("ok")
+        elif "EXITCODE: ERROR (12)" in r.stdout or "violat" in r.stdout:
+            vd.violation({"kind": "tlc-law", "what": "Apalache: IndInv is not inductive (%s, length %d)" % (init, length), "violated": "IndInv",
+                          "trace": r.stdout.splitlines()[-60:]})
+            verdicts.append("violated")
+        else:
+            return "tool-error"
+    return "proved" if verdicts == ["ok", "ok"] else ",".join(verdicts)
+
+
 def check_C24(tier, replay=None):
     import multiprocessing
     t0 = time.time()
@@ -488,6 +515,8 @@ def check_C24(tier, replay=None):
     stats["traces_rejected"] = len(rej)
     for t, l in rej:
         vd.violation({"kind": "trace", "trace": traces[t - 1], "rejected_at_event": l})
+    # (4) unbounded histories: NoDup is an inductive invariant of the machine (Apalache, symbolic)
+    stats["apalache_inductive_invariant"] = apalache_inductive("OrderedSetInd.tla", vd)
     nontriv = sum(1 for c in cases if len(c["hist"][-1]["after"]) >= 2)
     cov = {"states": tr.states, "transitions": tr.transitions,
            "traces_validated_against_impl": len(cases) + len(traces),
